@@ -9,9 +9,20 @@ Recognised cache stores (in any function or method):
 
 Rules
   (1) every parameter that flows into the cached value V flows into the key K, at *component precision*: a key
-      that only contains `p[0]` does not cover a value computed from `p`, `p[1]` or `min(p)`;
+      that only contains `p[0]` does not cover a value computed from `p`, `p[1]` or `min(p)`.  A parameter handed
+      whole to a method of the class or a function of the package counts for what that callee reads of it
+      (attributes, components, helper calls, followed recursively; an unresolved callee reads all of it).  The key
+      retains the whole of a parameter only through lossless wrappers (copy, tuple, asarray, float, `+`): `len(p)`,
+      `id(p)`, `round(p.a)`, `p[i]` retain something of p, not p; a helper `h(p)` retains what it returns.
+      At *element precision*: when V visits a collection reached from a parameter element by element, K must hold
+      that collection itself or an unfiltered element-by-element image of it (comprehension, or a sequence filled in
+      one loop) that separates the arms of every test V makes on an element and keeps, on each arm, what V reads
+      there; a key over a filtered sub-collection, a projection that omits a read attribute, or a key part added
+      under a condition V does not share, conflates collections that V distinguishes (sa/rules/keyreads.py);
   (2) for caches shared between instances (module-level, class-level, global) every `self` attribute that the
       value depends on — directly or through the self-methods that compute it — must be part of the key too;
+  (4) the value stored on a miss is computed from the key's inputs: a definition of it that reads the cache itself
+      (other than the lookup at the key) makes the entry depend on which other keys were computed before;
   (3) a guard that compares the key with a tolerance (`isclose` / `allclose`) conflates distinct inputs: it is a
       violation when the cached value depends on that input.
 Breaking any of them makes a result depend on what the object or process computed before.
@@ -23,7 +34,7 @@ import copy
 from typing import Optional
 
 from ..cfg import DataFlow
-from ..model import ClassInfo, FuncInfo, Repo, call_name, dotted, norm_text, walk_no_nested
+from ..model import AnalysisError, ClassInfo, FuncInfo, Repo, call_name, dotted, norm_text, walk_no_nested
 
 WHOLE = "*"
 
@@ -48,10 +59,137 @@ def _class_dicts(c: Optional[ClassInfo]) -> set[str]:
     return out
 
 
+_MUTATORS = {"append", "extend", "insert", "add", "update", "appendleft", "extendleft", "setdefault", "pop", "remove",
+             "clear", "sort", "reverse"}
+
+
+def _is_empty_seq(e: ast.AST) -> Optional[str]:
+    if isinstance(e, (ast.List, ast.Tuple)) and not e.elts:
+        return "list" if isinstance(e, ast.List) else "tuple"
+    if isinstance(e, ast.Call) and isinstance(e.func, ast.Name) and e.func.id in ("list", "tuple") and not e.args and \
+            not e.keywords:
+        return e.func.id
+    return None
+
+
+def _loop_built(f: FuncInfo) -> tuple[dict[str, ast.expr], dict[str, str], dict[str, ast.stmt]]:
+    """Locals filled element by element: `x = []` ... `for t in IT: x.append(E)` (also under `if T: .. else: ..`, and
+    `x += [E]` / `x += (E,)`) reads as `[E for t in IT]` (`[E1 if T else E2 ...]`, `[E for t in IT if T]`).
+    Returns (name -> equivalent expression, name -> why a mutated local could not be read)."""
+    muts: dict[str, list[tuple[ast.stmt, tuple]]] = {}
+    plain: dict[str, list[tuple[ast.expr, tuple]]] = {}
+
+    def appended(st: ast.stmt, x: str) -> Optional[ast.expr]:
+        if isinstance(st, ast.Expr) and isinstance(st.value, ast.Call) and isinstance(st.value.func, ast.Attribute) and \
+                st.value.func.attr == "append" and dotted(st.value.func.value) == x and len(st.value.args) == 1 and \
+                not st.value.keywords:
+            return st.value.args[0]
+        if isinstance(st, ast.AugAssign) and isinstance(st.op, ast.Add) and dotted(st.target) == x and \
+                isinstance(st.value, (ast.List, ast.Tuple)) and len(st.value.elts) == 1 and \
+                not isinstance(st.value.elts[0], ast.Starred):
+            return st.value.elts[0]
+        return None
+
+    def rec(stmts, loops: tuple) -> None:
+        for st in stmts:
+            if isinstance(st, (ast.FunctionDef, ast.AsyncFunctionDef, ast.ClassDef)):
+                continue
+            if isinstance(st, ast.Expr) and isinstance(st.value, ast.Call) and isinstance(st.value.func, ast.Attribute) \
+                    and st.value.func.attr in _MUTATORS and isinstance(st.value.func.value, ast.Name):
+                muts.setdefault(st.value.func.value.id, []).append((st, loops))
+            elif isinstance(st, ast.AugAssign) and isinstance(st.target, ast.Name) and loops:
+                tnames = {a.id for lp in loops if isinstance(lp, ast.For) for a in ast.walk(lp.target)
+                          if isinstance(a, ast.Name)}
+                if appended(st, st.target.id) is not None or \
+                        tnames & {a.id for a in ast.walk(st.value) if isinstance(a, ast.Name)}:
+                    muts.setdefault(st.target.id, []).append((st, loops))
+            elif isinstance(st, ast.Assign):
+                for t in st.targets:
+                    if isinstance(t, ast.Name):
+                        plain.setdefault(t.id, []).append((st.value, loops))
+                    elif isinstance(t, ast.Subscript) and isinstance(t.value, ast.Name):
+                        muts.setdefault(t.value.id, []).append((st, loops))
+            elif isinstance(st, ast.AnnAssign) and isinstance(st.target, ast.Name) and st.value is not None:
+                plain.setdefault(st.target.id, []).append((st.value, loops))
+            for fld, val in ast.iter_fields(st):
+                if isinstance(val, list) and val and isinstance(val[0], ast.stmt):
+                    rec(val, loops + ((st,) if isinstance(st, (ast.For, ast.While)) and fld == "body" else ()))
+                elif isinstance(val, list):
+                    for h in val:
+                        if isinstance(h, ast.ExceptHandler):
+                            rec(h.body, loops)
+
+    rec(f.node.body, ())
+    built: dict[str, ast.expr] = {}
+    unreadable: dict[str, str] = {}
+    built_loop: dict[str, ast.stmt] = {}
+    for x, ms in muts.items():
+        if x in f.params:
+            continue
+        defs = plain.get(x, [])
+        loops = {id(lp[-1]) if lp else None for _, lp in ms}
+        why = None
+        if len(defs) != 1 or defs[0][1]:
+            why = "it has several definitions"
+        elif len(loops) != 1 or None in loops or any(len(lp) != 1 for _, lp in ms):
+            why = "it is not filled inside one single loop"
+        elif not isinstance(ms[0][1][0], ast.For) or ms[0][1][0].orelse:
+            why = "the filling loop is not a plain for loop"
+        elif any(appended(st, x) is None for st, _ in ms):
+            why = "it is changed by something else than appending one element"
+        if why is None:
+            loop = ms[0][1][0]
+
+            def mentions(n) -> bool:
+                return any(isinstance(a, ast.Name) and a.id == x for a in ast.walk(n))
+
+            def build(stmts):
+                units = [st for st in stmts if mentions(st)]
+                if not units:
+                    return None
+                if len(units) != 1:
+                    raise ValueError("more than one element is appended per iteration")
+                u = units[0]
+                e = appended(u, x)
+                if e is not None:
+                    return ("elt", e)
+                if isinstance(u, ast.If) and not mentions(u.test):
+                    a, b = build(u.body), build(u.orelse)
+                    if a is not None and b is not None and a[0] == b[0] == "elt":
+                        return ("elt", ast.IfExp(test=u.test, body=a[1], orelse=b[1]))
+                    if a is not None and b is None and a[0] == "elt":
+                        return ("filter", u.test, a[1])
+                    if b is not None and a is None and b[0] == "elt":
+                        return ("filter", ast.UnaryOp(op=ast.Not(), operand=u.test), b[1])
+                raise ValueError("the appends are not one per iteration / per arm")
+
+            try:
+                r = build(loop.body)
+                if r is None:
+                    raise ValueError("no append found")
+                elt, ifs = (r[1], []) if r[0] == "elt" else (r[2], [r[1]])
+                comp = ast.ListComp(elt=copy.deepcopy(elt), generators=[ast.comprehension(
+                    target=copy.deepcopy(loop.target), iter=copy.deepcopy(loop.iter), ifs=copy.deepcopy(ifs), is_async=0)])
+                init = defs[0][0]
+                kind = _is_empty_seq(init)
+                if kind == "list":
+                    built[x] = comp
+                else:
+                    seq = ast.Call(func=ast.Name(id="tuple", ctx=ast.Load()), args=[comp], keywords=[])
+                    built[x] = seq if kind == "tuple" else ast.BinOp(left=copy.deepcopy(init), op=ast.Add(), right=seq)
+                ast.fix_missing_locations(built[x])
+                built_loop[x] = loop
+            except ValueError as e:
+                why = str(e)
+        if why is not None:
+            unreadable[x] = why
+    return built, unreadable, built_loop
+
+
 class _Inliner(ast.NodeTransformer):
     """Inline single plain local definitions (flow-insensitively, depth-limited)."""
 
-    def __init__(self, f: FuncInfo):
+    def __init__(self, f: FuncInfo, strict: bool = False):
         self.assigns: dict[str, list[ast.expr]] = {}
         for st in walk_no_nested(f.node):
             if isinstance(st, ast.Assign):
@@ -74,9 +212,39 @@ class _Inliner(ast.NodeTransformer):
                         self.assigns.setdefault(a.id, []).append(getattr(st, "value", None) or getattr(st, "iter", None))
         self.params = set(f.params)
         self.stack: list[str] = []
+        self.bound: list[set[str]] = []  # names bound by enclosing comprehensions: not locals of the function
+        self.qualname = f.qualname
+        self.strict = strict
+        self.loop_targets: set[str] = {a.id for st in walk_no_nested(f.node) if isinstance(st, ast.For)
+                                       for a in ast.walk(st.target) if isinstance(a, ast.Name)}
+        self.loop_targets_inlined: set[str] = set()
+        self.built, self.unreadable, self.built_loop = _loop_built(f)
+
+    def _visit_comp(self, node):
+        self.bound.append({a.id for g in node.generators for a in ast.walk(g.target) if isinstance(a, ast.Name)})
+        try:
+            return self.generic_visit(node)
+        finally:
+            self.bound.pop()
+
+    visit_GeneratorExp = visit_ListComp = visit_SetComp = visit_DictComp = _visit_comp
 
     def visit_Name(self, node: ast.Name):
+        if any(node.id in b for b in self.bound):
+            return node
         if isinstance(node.ctx, ast.Load) and node.id not in self.params and node.id not in self.stack:
+            if node.id in self.built and len(self.stack) < 6:
+                # a sequence filled element by element in one loop reads as the comprehension over that loop
+                self.stack.append(node.id)
+                try:
+                    return self.visit(copy.deepcopy(self.built[node.id]))
+                finally:
+                    self.stack.pop()
+            if node.id in self.unreadable and self.strict:
+                raise AnalysisError(f"{self.qualname}: `{node.id}` is filled by mutation ({self.unreadable[node.id]}); "
+                                    "the key built from it cannot be read")
+            if node.id in self.loop_targets:
+                self.loop_targets_inlined.add(node.id)
             defs = [d for d in self.assigns.get(node.id, []) if d is not None]
             if len(defs) == 1 and len(self.stack) < 6:
                 self.stack.append(node.id)
@@ -85,6 +253,9 @@ class _Inliner(ast.NodeTransformer):
                 finally:
                     self.stack.pop()
             if len(defs) > 1 and len(self.stack) < 6:
+                if self.strict and self.bound:
+                    raise AnalysisError(f"{self.qualname}: `{node.id}` has several definitions inside the loop that "
+                                        "builds the key; which one reaches the key is not decided here")
                 # several definitions: union of all of them (wrapped in a tuple)
                 self.stack.append(node.id)
                 try:
@@ -121,6 +292,117 @@ def _occurrences(e: ast.AST, params: set[str]) -> dict[str, set]:
             visit(c)
 
     visit(e)
+    return out
+
+
+def _value_occurrences(rd, f: FuncInfo, e: ast.AST, params: set[str]) -> dict[str, set]:
+    """Like `_occurrences`, but a parameter handed whole to a callee that resolves inside the package counts for what
+    the callee reads of it (keyreads.Reads.arg_reads); an unresolved callee still reads the whole parameter."""
+    out: dict[str, set] = {}
+
+    def visit(n: ast.AST):
+        if isinstance(n, ast.Name) and n.id in params:
+            out.setdefault(n.id, set()).add(WHOLE)
+            return
+        if isinstance(n, ast.Subscript) and isinstance(n.slice, ast.Constant) and isinstance(n.slice.value, int):
+            inner = n.value
+            while isinstance(inner, ast.Call) and (call_name(inner) or "").split(".")[-1] in (
+                    "atleast_1d", "tuple", "list", "asarray", "array") and len(inner.args) == 1:
+                inner = inner.args[0]
+            if isinstance(inner, ast.Name) and inner.id in params:
+                out.setdefault(inner.id, set()).add(n.slice.value)
+                return
+        if isinstance(n, ast.Attribute) and isinstance(n.value, ast.Name) and n.value.id in params and \
+                n.value.id != "self":
+            attr = n.attr[len("_valid_"):] if n.attr.startswith("_valid_") else n.attr.lstrip("_")
+            out.setdefault(n.value.id, set()).add("." + attr)
+            return
+        if isinstance(n, ast.Call):
+            every = list(n.args) + [k.value for k in n.keywords]
+            handed = [a for a in every if isinstance(a, ast.Name) and a.id in params]
+            for a in handed:
+                out.setdefault(a.id, set()).update(rd.arg_reads(f, n, a))
+            visit(n.func)
+            for a in every:
+                if not any(a is h for h in handed):
+                    visit(a)
+            return
+        for c in ast.iter_child_nodes(n):
+            visit(c)
+
+    visit(e)
+    return out
+
+
+_NARROW = "~"  # prefix of a key component that retains something of a parameter but not the parameter
+
+
+def _key_occurrences(e: ast.AST, params: set[str]) -> dict[str, set]:
+    """Components of the parameters the key retains.  A parameter (or component) under a call that is not a lossless
+    wrapper, or under a non-constant subscript, is retained only in part: it is recorded as a narrowed component,
+    which never stands for the parameter itself."""
+    from .keyreads import LOSSLESS, ORDER_KEEPING, _strip_order
+
+    out: dict[str, set] = {}
+
+    def add(p: str, comp, narrow: Optional[str]):
+        if narrow is None:
+            out.setdefault(p, set()).add(comp)
+        else:
+            shown = p if comp == WHOLE else (f"{p}[{comp}]" if isinstance(comp, int) else f"{p}{comp}")
+            out.setdefault(p, set()).add(_NARROW + narrow.replace("…", shown))
+
+    def visit(n: ast.AST, narrow: Optional[str]):
+        if isinstance(n, ast.Name) and n.id in params:
+            add(n.id, WHOLE, narrow)
+            return
+        if isinstance(n, ast.Subscript):
+            inner = n.value
+            while isinstance(inner, ast.Call) and (call_name(inner) or "").split(".")[-1] in (
+                    "atleast_1d", "tuple", "list", "asarray", "array") and len(inner.args) == 1:
+                inner = inner.args[0]
+            if isinstance(inner, ast.Name) and inner.id in params:
+                if isinstance(n.slice, ast.Constant) and isinstance(n.slice.value, int):
+                    add(inner.id, n.slice.value, narrow)
+                else:
+                    add(inner.id, WHOLE, narrow or f"…[{norm_text(n.slice)[:20]}]")
+                    visit(n.slice, narrow)
+                return
+        if isinstance(n, ast.Attribute) and isinstance(n.value, ast.Name) and n.value.id in params and \
+                n.value.id != "self":
+            attr = n.attr[len("_valid_"):] if n.attr.startswith("_valid_") else n.attr.lstrip("_")
+            add(n.value.id, "." + attr, narrow)
+            return
+        if isinstance(n, ast.Call):
+            nm = (call_name(n) or "").split(".")[-1]
+            method_of_param = isinstance(n.func, ast.Attribute) and isinstance(n.func.value, ast.Name) and \
+                n.func.value.id in params and n.func.value.id != "self"
+            if method_of_param:
+                visit(n.func, narrow)  # p.lower() is the component `.lower` of p, as before
+                inner_narrow = narrow
+            elif nm in LOSSLESS or nm in ("reversed", "enumerate", "iter") or isinstance(n.func, ast.Call):
+                inner_narrow = narrow
+            else:
+                inner_narrow = narrow or f"{norm_text(n.func)[:30]}(…)"
+            for a in list(n.args) + [k.value for k in n.keywords]:
+                visit(a, inner_narrow)
+            return
+        if isinstance(n, (ast.GeneratorExp, ast.ListComp, ast.SetComp)) and len(n.generators) == 1:
+            g = n.generators[0]
+            src, enum = _strip_order(g.iter, ORDER_KEEPING)
+            if isinstance(src, ast.Name) and src.id in params and isinstance(g.target, ast.Name) and not enum:
+                # elementwise copy of the parameter: lossless iff unfiltered and the element survives whole
+                sub = _key_occurrences(n.elt, {g.target.id})
+                whole = WHOLE in sub.get(g.target.id, set()) and not g.ifs and not isinstance(n, ast.SetComp)
+                add(src.id, WHOLE, narrow if whole else (narrow or "an element-wise projection of …"))
+                for t in g.ifs:
+                    visit(t, narrow)
+                visit(n.elt, narrow)
+                return
+        for c in ast.iter_child_nodes(n):
+            visit(c, narrow)
+
+    visit(e, None)
     return out
 
 
@@ -231,23 +513,32 @@ def find_sites(repo: Repo, modules: Optional[set[str]] = None) -> list[CacheSite
     return sites
 
 
-def check(ctx, rule: str = "R-CACHEKEY", modules: Optional[set[str]] = None) -> int:
+def check(ctx, rule: str = "R-CACHEKEY", modules: Optional[set[str]] = None, stats: Optional[dict] = None) -> int:
+    from . import keyreads
+
     repo: Repo = ctx.repo
+    rd = keyreads.Reads(repo)
     n = 0
     for s in find_sites(repo, modules):
         f = s.f
         params = set(f.params) - {"self", "cls"}
-        inl = _Inliner(f)
-        key_e = inl.visit(copy.deepcopy(s.key))
+        inl = _Inliner(f, strict=True)
+        key_e = rd.expand_helpers(f, inl.visit(copy.deepcopy(s.key)), params)
         inl2 = _Inliner(f)
         val_e = inl2.visit(copy.deepcopy(s.value))
-        kocc, vocc = _occurrences(key_e, params), _occurrences(val_e, params)
+        kocc, vocc = _key_occurrences(key_e, params), _value_occurrences(rd, f, val_e, params)
         construct = f"{f.qualname}:{s.cache_name}"
         n += 1
         problems = []
+
+        def show(p, c):
+            if isinstance(c, str) and c.startswith(_NARROW):
+                return c[len(_NARROW):]
+            return p if c == WHOLE else (f"{p}[{c}]" if isinstance(c, int) else f"{p}{c}")
+
         for p, comps in sorted(vocc.items()):
             kc = kocc.get(p, set())
-            if WHOLE in kc:
+            if WHOLE in kc or not comps:
                 continue
             if not kc:
                 problems.append((p, f"`{p}` flows into the cached value but not into the key"))
@@ -256,10 +547,54 @@ def check(ctx, rule: str = "R-CACHEKEY", modules: Optional[set[str]] = None) -> 
             if {0, 1} <= kc and not missing:
                 continue  # both components of a 2-vector are in the key
             if WHOLE in comps or missing:
-                used = ", ".join(f"{p}{'' if c == WHOLE else ('[' + str(c) + ']' if isinstance(c, int) else c)}"
-                                 for c in sorted(comps, key=str))
-                have = ", ".join(f"{p}[{c}]" if isinstance(c, int) else f"{p}{c}" for c in sorted(kc, key=str))
+                used = ", ".join(show(p, c) for c in sorted(comps, key=str))
+                have = ", ".join(show(p, c) for c in sorted(kc, key=str))
                 problems.append((p, f"the cached value depends on {used} but the key only contains {have}"))
+        # element precision: collections the value iterates over
+        flagged = {p for p, _ in problems}
+        uses = rd.collect_uses(f, val_e, params)
+        covered: dict[str, int] = {}
+        undecided = []
+        for u in uses:
+            if u.collection.split(".")[0] in flagged:
+                continue
+            if inl.loop_targets_inlined:
+                raise AnalysisError(f"{f.qualname}: the key is built inside a loop over "
+                                    f"{', '.join(sorted(inl.loop_targets_inlined))} in a form that is not read; the "
+                                    f"cached value reads the elements of {u.collection} one by one")
+            verdict, why = keyreads.decide(rd, u, rd.key_cover(key_e, u.collection, params))
+            if verdict == "ok":
+                # the covering part of the key may be added under a condition only
+                for test, pol in rd.key_guards(f, s.key, u.collection, params):
+                    x, ne = rd.nonempty_form(test)
+                    view = rd.view_of(f, x, {p: p for p in params})
+                    if view is None or view[0] != u.collection or ne != pol:
+                        raise AnalysisError(f"{f.qualname}: {u.collection} enters the key only when "
+                                            f"`{norm_text(test)[:60]}` is {pol}; that condition is not a test for "
+                                            "elements of the collection and is not compared with the value here")
+                    if not view[1] or view[1] <= u.filters or rd.guarded(u, u.collection, view[1]):
+                        continue
+                    verdict = "conditional"
+                    flt = " and ".join(sorted((t if q else f"not {t}") for t, q in view[1])).replace("·", "element")
+                    problems.append((u.collection, f"the cached value visits the elements of {u.collection} (`{u.text}` in "
+                                                   f"{u.where.split('.')[-1]}) whether or not one of them has {flt}, "
+                                                   f"but the key holds them only when `{norm_text(test)[:60]}`: without "
+                                                   "such an element, collections that the value distinguishes share a "
+                                                   "key"))
+            if verdict == "ok":
+                covered[u.collection] = covered.get(u.collection, 0) + 1
+            elif verdict == "violation":
+                msg = (f"the cached value visits the elements of {u.collection} (`{u.text}` in {u.where.split('.')[-1]}): "
+                       f"{why}")
+                if (u.collection, msg) not in problems:
+                    problems.append((u.collection, msg))
+            elif verdict == "undecided":
+                undecided.append(f"{f.qualname}: {u.collection}: {why}")
+            # 'absent': the component rule above has judged the parameter already
+        if undecided and not problems:
+            raise AnalysisError(undecided[0])
+        if stats is not None:
+            stats[construct] = {"uses": len(uses), "covered": dict(covered)}
         if s.owner in ("module", "class") and f.cls is not None:
             vs = _self_attrs(f, s.value) | _self_attrs(f, val_e)
             ks = _self_attrs(f, key_e)
@@ -268,6 +603,25 @@ def check(ctx, rule: str = "R-CACHEKEY", modules: Optional[set[str]] = None) -> 
             if miss:
                 problems.append(("self", f"the cache `{s.cache_name}` is shared by all instances but the cached value "
                                          f"depends on self.{', self.'.join(miss)}, which the key does not contain"))
+        # (4) the value stored on a miss is a function of the key's inputs, not of what the cache already holds
+        cache_base = s.cache_name.split(".")[-1]
+        cb = cache_base.lstrip("_")
+        vdefs = [s.value]
+        if isinstance(s.value, ast.Name):
+            vdefs = [d for d in inl.assigns.get(s.value.id, []) if d is not None] or [s.value]
+        for v in vdefs:
+            if isinstance(v, ast.Subscript) and (dotted(v.value) or "").split(".")[-1].lstrip("_") == cb:
+                continue  # the lookup D[K] itself
+            try:
+                v = _Inliner(f).visit(copy.deepcopy(v))  # read through single-definition locals
+            except AnalysisError:
+                pass
+            reads = {a.lstrip("_") for a in _self_attrs(f, v)} if f.cls is not None else set()
+            reads |= {x.id.lstrip("_") for x in ast.walk(v) if isinstance(x, ast.Name) and s.owner == "module"}
+            if cb in reads:
+                problems.append(("history", f"on a miss the value stored under the key can come from `{norm_text(v)[:60]}`, "
+                                            f"which reads the cache `{s.cache_name}` itself: what is returned for this "
+                                            "key depends on which other keys were computed before"))
         # tolerance guards
         for c in walk_no_nested(f.node):
             if isinstance(c, ast.Call) and (call_name(c) or "").split(".")[-1] in ("isclose", "allclose"):
@@ -282,9 +636,10 @@ def check(ctx, rule: str = "R-CACHEKEY", modules: Optional[set[str]] = None) -> 
                                                   f"within the tolerance get the value computed for another "
                                                   f"{', '.join(sorted(hit))}"))
         if not problems:
+            elem = "".join(f"; {k} element iteration(s) over {c} determined by the key" for c, k in sorted(covered.items()))
             ctx.ok(rule, construct, f.loc(s.store),
                    f"{s.owner}-level {s.kind} cache: every input of the cached value is in the key "
-                   f"({', '.join(sorted(vocc)) or 'no parameter'})")
+                   f"({', '.join(sorted(p for p, c in vocc.items() if c)) or 'no parameter'}){elem}")
         for p, why in problems:
             ctx.violation(rule, construct, f.loc(s.store), why + f" (key `{norm_text(s.key)[:60]}`)", key_detail=p)
     return n
